@@ -564,8 +564,8 @@ Section Correct.
   End HelperOk.
 
   (* ---- loops ---- *)
-  Lemma after_body_ok G c0 k c sub kin en cont_t r (again : list value -> mstate -> dout) :
-    tgt G c0 kin (mkL sub (Some en) (Some cont_t)) r ->
+  Lemma after_body_ok G c0 k c sub pm kin en cont_t r (again : list value -> mstate -> dout) :
+    tgt G c0 kin (mkL sub (Some en) (Some cont_t) pm) r ->
     G en = Some (BSimple [] k) ->
     (forall s st, tgt G (cont_conf kin s st) k c (again s st)) ->
     (forall s st, tgt G (GAt cont_t s st) k c (again s st)) ->
@@ -577,8 +577,8 @@ Section Correct.
     - eapply tgt_pre; [exact H|apply Hc].
   Qed.
 
-  Lemma hdr_ok G c0 k c sub kin en r (again : list value -> mstate -> dout) :
-    tgt G c0 kin (mkL sub (Some en) None) r ->
+  Lemma hdr_ok G c0 k c sub pm kin en r (again : list value -> mstate -> dout) :
+    tgt G c0 kin (mkL sub (Some en) None pm) r ->
     G en = Some (BSimple [] k) ->
     (forall s st, tgt G (cont_conf kin s st) k c (again s st)) ->
     tgt G c0 k c (hdr r again).
@@ -588,10 +588,10 @@ Section Correct.
     - eapply star_trans; [exact H|]. apply empty_block. exact Een.
   Qed.
 
-  Lemma while_loop_ok (den : expr -> list value -> mstate -> dout) G (c : lctx) sub k en br cs ds cnd body :
+  Lemma while_loop_ok (den : expr -> list value -> mstate -> dout) G (c : lctx) sub pm k en br cs ds cnd body :
     G en = Some (BSimple [] k) -> G br = Some (BCond [] (Some ds) (Some en)) ->
-    (forall stk st, tgt G (GAt cs stk st) (Some br) (mkL sub (Some en) None) (den cnd stk st)) ->
-    (forall stk st, tgt G (GAt ds stk st) (Some cs) (mkL sub (Some en) (Some cs)) (den body stk st)) ->
+    (forall stk st, tgt G (GAt cs stk st) (Some br) (mkL sub (Some en) None pm) (den cnd stk st)) ->
+    (forall stk st, tgt G (GAt ds stk st) (Some cs) (mkL sub (Some en) (Some cs) pm) (den body stk st)) ->
     forall n stk st, tgt G (GAt cs stk st) k c (den_while den n cnd body stk st).
   Proof.
     intros Een Ebr Hc Hb. induction n as [|n IH]; intros stk st; cbn [den_while]; [exact Logic.I|].
@@ -609,11 +609,11 @@ Section Correct.
       eapply star_trans; [exact H|]. apply empty_block. exact Een.
   Qed.
 
-  Lemma for_loop_ok (den : expr -> list value -> mstate -> dout) G (c : lctx) sub k en br cs ss ds cnd stp body :
+  Lemma for_loop_ok (den : expr -> list value -> mstate -> dout) G (c : lctx) sub pm k en br cs ss ds cnd stp body :
     G en = Some (BSimple [] k) -> G br = Some (BCond [] (Some ds) (Some en)) ->
-    (forall stk st, tgt G (GAt cs stk st) (Some br) (mkL sub (Some en) None) (den cnd stk st)) ->
-    (forall stk st, tgt G (GAt ss stk st) (Some cs) (mkL sub (Some en) None) (den stp stk st)) ->
-    (forall stk st, tgt G (GAt ds stk st) (Some ss) (mkL sub (Some en) (Some ss)) (den body stk st)) ->
+    (forall stk st, tgt G (GAt cs stk st) (Some br) (mkL sub (Some en) None pm) (den cnd stk st)) ->
+    (forall stk st, tgt G (GAt ss stk st) (Some cs) (mkL sub (Some en) None pm) (den stp stk st)) ->
+    (forall stk st, tgt G (GAt ds stk st) (Some ss) (mkL sub (Some en) (Some ss) pm) (den body stk st)) ->
     forall n stk st, tgt G (GAt cs stk st) k c (den_for den n cnd stp body stk st).
   Proof.
     intros Een Ebr Hc Hs Hb. induction n as [|n IH]; intros stk st; cbn [den_for]; [exact Logic.I|].
